@@ -652,6 +652,89 @@ pub fn c13(o: &mut Out, seed: u64, sc: &Scale) {
             probes(w, &cfg);
         });
     }
+    // --- orphans behind a closed window whose peer falls silent: small receive caps, more written
+    // than the window takes, partial reads, every close order, then the network turns into a black
+    // hole (after 0..2 loss-free rounds). Every timer of a closed socket must expire on its own.
+    for recvcap in [1usize, 2, 4] {
+        for (thr, max) in [(1u32, 1u32), (2, 1), (3, 2)] {
+            for extra in [1usize, 5] {
+                for reads in [0usize, 1] {
+                    for order in 0..4u64 {
+                        for free in 0..3u64 {
+                            let cfg = Cfg { recvcap, retxthr: thr, retxmax: max, reclaim: true, ..Cfg::default() };
+                            let s = order + 4 * 2 + 12 * free; // epilogue: close order, black hole, free rounds
+                            o.case("orphan_zerowin", s, &cfg, |w| {
+                                w.apply(Op::Listen { h: 1, l: 0, ip: host_v4(1), port: 9000 });
+                                w.apply(Op::Connect { h: 0, c: 0, s: 0, ip: host_v4(1), port: 9000 });
+                                for _ in 0..3 {
+                                    eg(w);
+                                    deliver_all(w);
+                                }
+                                w.apply(Op::CPoll { c: 0, s: 0 });
+                                w.apply(Op::Accept { l: 0, s: 1 });
+                                w.apply(Op::Write { s: 0, data: (0..(recvcap + extra) as u8).collect() });
+                                for _ in 0..3 {
+                                    eg(w);
+                                    deliver_all(w);
+                                }
+                                if reads > 0 {
+                                    w.apply(Op::Read { s: 1, n: reads });
+                                }
+                                w.apply(Op::Stat);
+                                epilogue_reclaim(w, &cfg, s);
+                            });
+                        }
+                    }
+                }
+            }
+        }
+    }
+    // --- both wildcard listeners on one port (`0.0.0.0:p`, `[::]:p`); one of them is dropped at some
+    // point of a handshake that belongs to the other one.
+    for client_v6 in [false, true] {
+        for drop_v6 in [false, true] {
+            for when in 0..4u32 {
+                let cfg = Cfg { reclaim: true, ..Cfg::default() };
+                let s = (client_v6 as u64) + 2 * (drop_v6 as u64) + 4 * when as u64;
+                o.case("dual_family", s, &cfg, |w| {
+                    w.apply(Op::Listen { h: 1, l: 0, ip: ip("any4"), port: 9000 });
+                    w.apply(Op::Listen { h: 1, l: 1, ip: ip("any6"), port: 9000 });
+                    let dst = if client_v6 { host_v6(1) } else { host_v4(1) };
+                    let dropped = if drop_v6 { 1 } else { 0 };
+                    if when == 0 {
+                        w.apply(Op::LDrop { l: dropped });
+                    }
+                    w.apply(Op::Connect { h: 0, c: 0, s: 0, ip: dst, port: 9000 });
+                    eg(w);
+                    deliver_all(w); // SYN
+                    w.apply(Op::Stat);
+                    if when == 1 {
+                        w.apply(Op::LDrop { l: dropped });
+                    }
+                    for _ in 0..2 {
+                        eg(w);
+                        deliver_all(w);
+                    }
+                    w.apply(Op::Stat);
+                    if when == 2 {
+                        w.apply(Op::LDrop { l: dropped });
+                    }
+                    if w.connecting.contains_key(&0) {
+                        w.apply(Op::CPoll { c: 0, s: 0 });
+                    }
+                    for l in 0..2u32 {
+                        if w.listeners.contains_key(&l) {
+                            w.apply(Op::Accept { l, s: 10 + l });
+                        }
+                    }
+                    if when == 3 {
+                        w.apply(Op::LDrop { l: dropped });
+                    }
+                    epilogue_reclaim(w, &cfg, s);
+                });
+            }
+        }
+    }
     // --- many sequential connections: ports and 4-tuples get reused.
     let n_seq = if sc.thorough { 20 } else { 4 };
     for k in 0..n_seq {
